@@ -1362,7 +1362,60 @@ const PRESSURE: [(&str, &str, PP); 56] = [
     ("cs_reload2", "regs", pp_cs_reload),
 ];
 
+/// read; write; read of one register inside one function: the second read must see what the write stored (an asm read
+/// block that is wrongly `pure` is merged with the first one in optimised builds)
+macro_rules! rwr {
+    ($out:expr, $name:expr, $reg:expr, $p:expr, $x:expr, |$v:ident| $wr:expr, $rd:expr) => {{
+        #[inline(never)]
+        #[allow(unused_unsafe)]
+        fn go($v: u64) -> (u64, u64) {
+            unsafe {
+                let r1: u64 = $rd;
+                $wr;
+                let r2: u64 = $rd;
+                (r1, r2)
+            }
+        }
+        let (p, x): (u64, u64) = ($p, $x);
+        set($reg, p);
+        cpu::drain();
+        let got = catch(|| go(x));
+        cpu::drain();
+        let (r1, r2) = got.unwrap_or((0, 0));
+        $out.emit(Ev::new("rwr").str("name", $name).w("p", p).w("x", x).str("k", if got.is_some() { "ok" } else { "panic" }).words("r", &[r1, r2]));
+    }};
+}
+
+fn run_rwr(out: &mut Out, r: &mut Rng) {
+    for _k in 0..4 {
+        let ca = |r: &mut Rng| VirtAddr::new_truncate(r.next()).as_u64();
+        rwr!(out, "Cr0", Reg::Cr(0), Cr0Flags::from_bits_truncate(r.next()).bits(), Cr0Flags::from_bits_truncate(r.next()).bits(),
+            |v| Cr0::write(Cr0Flags::from_bits_truncate(v)), Cr0::read().bits());
+        rwr!(out, "Cr0 raw", Reg::Cr(0), r.next(), r.next(), |v| Cr0::write_raw(v), Cr0::read_raw());
+        rwr!(out, "Cr4", Reg::Cr(4), Cr4Flags::from_bits_truncate(r.next()).bits(), Cr4Flags::from_bits_truncate(r.next()).bits(),
+            |v| Cr4::write(Cr4Flags::from_bits_truncate(v)), Cr4::read().bits());
+        rwr!(out, "Cr4 raw", Reg::Cr(4), r.next(), r.next(), |v| Cr4::write_raw(v), Cr4::read_raw());
+        rwr!(out, "Dr1", Reg::Dr(1), r.next(), r.next(), |v| Dr1::write(v), Dr1::read());
+        rwr!(out, "Dr2", Reg::Dr(2), r.next(), r.next(), |v| Dr2::write(v), Dr2::read());
+        rwr!(out, "Dr3", Reg::Dr(3), r.next(), r.next(), |v| Dr3::write(v), Dr3::read());
+        rwr!(out, "Dr7 raw", Reg::Dr(7), r.next(), r.next(), |v| Dr7::write_raw(v), Dr7::read_raw());
+        rwr!(out, "Efer", Reg::Msr(EFER), EferFlags::from_bits_truncate(r.next()).bits(), EferFlags::from_bits_truncate(r.next()).bits(),
+            |v| Efer::write(EferFlags::from_bits_truncate(v)), Efer::read().bits());
+        rwr!(out, "Efer raw", Reg::Msr(EFER), r.next(), r.next(), |v| Efer::write_raw(v), Efer::read_raw());
+        rwr!(out, "FsBase", Reg::Msr(FSBASE), ca(r), ca(r), |v| FsBase::write(VirtAddr::new_truncate(v)), FsBase::read().as_u64());
+        rwr!(out, "GsBase", Reg::Msr(GSBASE), ca(r), ca(r), |v| GsBase::write(VirtAddr::new_truncate(v)), GsBase::read().as_u64());
+        rwr!(out, "KernelGsBase", Reg::Msr(KGSBASE), ca(r), ca(r), |v| KernelGsBase::write(VirtAddr::new_truncate(v)), KernelGsBase::read().as_u64());
+        rwr!(out, "LStar", Reg::Msr(LSTAR), ca(r), ca(r), |v| LStar::write(VirtAddr::new_truncate(v)), LStar::read().as_u64());
+        rwr!(out, "SFMask", Reg::Msr(SFMASK), RFlags::from_bits_truncate(r.next()).bits(), RFlags::from_bits_truncate(r.next()).bits(),
+            |v| SFMask::write(RFlags::from_bits_truncate(v)), SFMask::read().bits());
+        rwr!(out, "Msr", Reg::Msr(0xc000_0103), r.next(), r.next(), |v| Msr::new(0xc000_0103).write(v), Msr::new(0xc000_0103).read());
+    }
+}
+
 fn run_pressure(out: &mut Out, r: &mut Rng, only: &str) {
+    if matches!(only, "" | "regs") {
+        run_rwr(out, r);
+    }
     for (name, group, p) in PRESSURE.iter() {
         if !(only.is_empty() || only == *group) {
             continue;
